@@ -14,8 +14,12 @@ class MachineryError(Exception):
 OUT_ROOT = ROOT
 
 
+REPO = ['/repo']
+
+
 def setup_repo(repo):
     """Make `import optyx` resolve to <repo>/src and nothing else."""
+    REPO[0] = os.path.abspath(repo)
     src = os.path.join(os.path.abspath(repo), 'src')
     sys.path.insert(0, src)
     import optyx
